@@ -66,6 +66,55 @@ struct Access {
   }
 
   // --------------------------------------------------- algebra: pairs/triples
+  // Iterators and references handed out by a support stay valid and keep
+  // describing the same window while const operations (comparisons, union,
+  // intersection - also with supports on an equal grid held in another
+  // instance) are performed on it.
+  void referenceStability(const Win &A) {
+    if (A.empty()) return;
+    const Support<T> sa = sup(A);
+    const T *front0 = &sa.front(), *back0 = &sa.back(), *at0 = &sa.at(0);
+    const auto b0 = sa.begin(), e0 = sa.end();
+    const auto data0 = sa.getGrid().getData();
+    for (const Win &B : wins) {
+      const Support<T> sb = sup(B, true);  // equal twin instance
+      (void)(sa == sb);
+      (void)sa.hasSameGrid(sb);
+      (void)sa.calcUnion(sb);
+      (void)sb.calcIntersection(sa);
+      (void)(sa.getGrid() == sb.getGrid());
+    }
+    if (&sa.front() != front0 || &sa.back() != back0 || &sa.at(0) != at0 ||
+        sa.begin() != b0 || sa.end() != e0 ||
+        (size_t)(sa.end() - b0) != A.end - A.start ||
+        sa.getGrid().getData() != data0) {
+      bad("C13", "references-invalidated-by-const-operation", ctx(A));
+      bad("C14", "support-storage-changed-by-const-operation", ctx(A));
+    }
+    c.count("reference-stability");
+    // assignment between interval-free supports on different grids moves the
+    // grid along
+    {
+      std::vector<R> other = pts;
+      other.back() += 1;
+      const Grid<T> cousin(mkVec<T>(other));
+      Support<T> x = Support<T>::createEmpty(cousin);
+      x = Support<T>::createEmpty(grid);  // move assignment from a temporary
+      Support<T> y = Support<T>::createEmpty(cousin);
+      Support<T> z = Support<T>::createEmpty(grid);
+      y = std::move(z);
+      Support<T> w = Support<T>::createEmpty(cousin);
+      w = sup(Win{0, 0});  // copy assignment
+      for (const Support<T> *p : {&x, &y, &w})
+        if (!p->hasSameGrid(sa) || !(p->getGrid() == grid) || p->getGrid() == cousin ||
+            outcome([&] {
+              if (!(p->calcUnion(sa) == sa)) throw 1;
+            }) != 0)
+          bad("C13", "empty-support-assignment-keeps-old-grid", ctx(A));
+      c.count("empty-assignment-across-grids");
+    }
+  }
+
   void algebra(const Win &A) {
     const Support<T> sa = sup(A);
     for (const Win &B : wins) {
@@ -345,6 +394,7 @@ void runCase(Ctx &c) {
   const Win A = a.wins[(size_t)k];
   a.algebra(A);
   a.indices(A);
+  a.referenceStability(A);
   c.count("windows");
   c.count("gridsize:" + std::to_string(n));
   Hasher h;
